@@ -117,10 +117,14 @@ def main():
 
 def finish(a, meta, patch, demo, readme, keep):
     out = os.path.join("/verif/seeded", a.name)
+    if not readme and os.path.exists(os.path.join(out, "meta.json")):
+        # re-evaluation from the recorded directory (which has no README.md): keep the recorded description
+        readme = json.load(open(os.path.join(out, "meta.json"))).get("readme", "")
     if keep:
         os.makedirs(out, exist_ok=True)
-        shutil.copy(patch, os.path.join(out, "patch.diff"))
-        shutil.copy(demo, os.path.join(out, "demo_test.go"))
+        for src, dst in ((patch, os.path.join(out, "patch.diff")), (demo, os.path.join(out, "demo_test.go"))):
+            if os.path.abspath(src) != os.path.abspath(dst):
+                shutil.copy(src, dst)
         m = re.search(r"(?is)(manifest|needs?|needed).{0,600}", readme)
         meta["needs_to_manifest"] = (m.group(0)[:600] if m else readme[:600])
         meta["readme"] = readme[:3000]
